@@ -66,6 +66,8 @@ var AddrTable = []AddrDef{
 	{"/ip4/169.254.1.1/tcp/1", false},
 	{"/dns/ipni.example.org/tcp/443/https", true},
 	{"/ip6/::/tcp/3103", false},
+	{"/ip4/192.0.2.1/tcp/1", false}, // unroutable (TEST-NET-1)
+	{"/ip4/224.0.0.1/tcp/1", false}, // multicast
 }
 
 var (
